@@ -246,35 +246,8 @@ theorem advance_inv : ∀ (n : Nat) (s : State), Inv s → Inv (advance n s).1
 
 /-! ## the stale main loop, `handle_connection`, and every event -/
 
-theorem staleSends_spec (s : State) :
-    let w := (sendIf (fun s => decide (s.refreshQ > 0)) .refresh (fun s => { s with refreshQ := s.refreshQ - 1 }) s)
-      |>.andSend (fun s => (({ s with routesPending := false }, []), true))
-      |>.andSend (sendIf (fun s => s.eorPending) .keepalive (fun s => { s with eorPending := false }))
-    Same s w.1.1 ∧ (w.2 = true → w.1.1.conn = s.conn) ∧ (w.2 = false → w.1.1.conn = none) := by
-  obtain ⟨cfg, fsm, pc, conn, nextId, restart, teardown, attempts, rib, rq, rp, ep, ka, up⟩ := s
-  simp only [W.andSend, sendIf, sendOn]
-  cases conn with
-  | none => by_cases h1 : rq > 0 <;> cases ep <;> simp [h1] <;> exact ⟨rfl, rfl, rfl, rfl, rfl, rfl, rfl, rfl⟩
-  | some k =>
-    cases hr : k.rst <;> by_cases h1 : rq > 0 <;> cases ep <;> simp [h1, hr, markSent] <;>
-      exact ⟨rfl, rfl, rfl, rfl, rfl, rfl, rfl, rfl⟩
-
-theorem staleIter_inv (s : State) (h : Inv s) (hd : s.pc ≠ .done) : Inv (staleIter s).1 := by
-  obtain ⟨hsame, hok, hfail⟩ := staleSends_spec s
-  unfold staleIter
-  simp only []
-  split
-  · rename_i hw
-    have hinv := h.congr hsame.fsm hsame.pc (by rw [hok hw]) hsame.nextId hsame.isUp
-    rw [andThen_fst]
-    split
-    · exact hinv
-    · split
-      · exact inv_of_ended (onOther_ended _ (hinv.hup (by rw [hsame.pc]; exact hd)))
-      · exact inv_of_ended (onNotify_ended _ _ _ (hinv.hup (by rw [hsame.pc]; exact hd)))
-  · rw [andThen_fst]
-    refine inv_of_ended (onNetErr_ended _ ?_)
-    rw [hsame.isUp, hsame.fsm]; exact h.hup hd
+theorem staleIter_inv (s : State) (h : Inv s) (hd : s.pc ≠ .done) : Inv (staleIter s).1 :=
+  inv_of_ended (onOther_ended _ (h.hup hd))
 
 theorem Inv.bump {s : State} (h : Inv s) : Inv { s with nextId := s.nextId + 1 } := by
   constructor
@@ -373,7 +346,7 @@ theorem drainMain_inv : ∀ (n : Nat) (s : State), Inv s → Inv (drainMain n s)
     | mainLoop c =>
       simp only []
       cases hc : s.conn with
-      | none => exact h
+      | none => exact staleIter_inv s h (by rw [hp]; simp)
       | some k =>
         simp only [andThen_fst]
         refine drainMain_inv n _ ?_
@@ -470,7 +443,7 @@ theorem react_inv (s : State) (e : Event) (h : Inv s) : Inv (react s e).1 := by
     · rename_i c hp
       have hd : s.pc ≠ .done := by rw [hp]; simp
       cases hc : s.conn with
-      | none => exact inv_of_ended (onOther_ended _ (h.hup hd))
+      | none => exact staleIter_inv s h hd
       | some k =>
         simp only []
         split
